@@ -46,7 +46,7 @@ func DefaultConfig() Config {
 	return Config{
 		Workers:         16,
 		MaxDecisions:    4000,
-		MaxUnwind:       4096,
+		MaxUnwind:       1 << 22,
 		MaxSteps:        20_000_000,
 		MaxPaths:        200_000,
 		MaxSchedPoints:  400,
@@ -62,7 +62,7 @@ func DefaultConfig() Config {
 			"github.com/antlr4-go/", "github.com/redis/", "net/http", "net", "crypto/", "os", "syscall",
 			"runtime", "internal/", "github.com/maypok86/", "golang.org/x/", "github.com/segmentio/",
 			"github.com/stretchr/", "testing", "reflect", "log", "mime", "vendor/", "compress/",
-			"github.com/centrifugal/protocol", "github.com/planetscale/", "github.com/mailru/",
+			"github.com/planetscale/", "github.com/mailru/",
 			"github.com/centrifugal/centrifuge/internal/controlpb", "encoding/json", "text/", "html/",
 			"go.yaml.in/", "github.com/josharian/", "regexp", "database/", "embed", "flag", "io/fs", "path",
 		},
